@@ -310,6 +310,12 @@ def release_rules(ck, tm, g, rule):
     changed = True
     while changed:
         changed = False
+        # a closure is part of the function that defines it (the allocator's per-probe attempt handed to a generic scanner)
+        for b in tm.facts.fn_bodies():
+            q = b["path"]
+            if q not in owned and "::{closure#" in q and q.split("::{closure#")[0] in owned:
+                owned.add(q)
+                changed = True
         for f, cs in callers.items():
             if f not in owned and cs and cs <= owned and not (tm.facts.fns.get(f) or {}).get("reachable"):
                 owned.add(f)
